@@ -1,5 +1,6 @@
 import Drv.Common
 import IwModel.Model.JsonPatch
+import IwModel.Model.BinnPatch
 /-! `drv c15`: JSON Patch model behind the protocol of harness/h_c15.c. -/
 namespace Drv.C15
 open IwModel IwModel.Patch Drv
@@ -18,8 +19,48 @@ def showBin (r : Option JVal) : String :=
   | some (.obj ms) => (JVal.obj ms).toWire
   | _ => "NOCONTAINER"
 
+/-- a holder as the harness prints it: the bytes of a document, or `scalar <wire>` for a value struct -/
+def showHolder (h : Binn.BVal) : String :=
+  match h with
+  | .cont bs => hexOut bs
+  | .null => "scalar n"
+  | .bool b => if b then "scalar t" else "scalar f"
+  | .int i => s!"scalar i{i}"
+  | .f64 b => "scalar d" ++ JVal.hex16 b
+  | .str s => "scalar s" ++ hexOut s
+  | .other t => s!"scalar ?type{t}"
+
+/-- split a word list at every `|` -/
+partial def splitBars (ws : List String) : List (List String) :=
+  match ws.dropWhile (· ≠ "|") with
+  | [] => [ws.takeWhile (· ≠ "|")]
+  | _ :: rest => ws.takeWhile (· ≠ "|") :: splitBars rest
+
+def bytePatch (mode : String) (h : Binn.BVal) (patch : JVal) : Binn.BVal × Err :=
+  if mode == "json" then BinnPatch.jblPatchFromJson h (ofJ patch) else BinnPatch.jblPatch h (ofJ patch)
+
 def step (ws : List String) : String :=
   match ws with
+  | "bpatch" :: mode :: hex :: "|" :: pts =>
+    -- the composed model on the binn BYTES: hex in, hex out
+    match (ofHex hex).bind BinnPatch.ofBuf, JVal.ofWire pts with
+    | some h, some patch =>
+      if mode == "jbl" || mode == "json" then
+        let res := bytePatch mode h patch
+        s!"{res.2.name} {showHolder res.1}"
+      else "bad-op"
+    | _, _ => "bad-op"
+  | "bseq" :: mode :: hex :: "|" :: rest =>
+    -- several patch documents applied to the same holder one after the other
+    match (ofHex hex).bind BinnPatch.ofBuf, (splitBars rest).mapM JVal.ofWire with
+    | some h, some patches =>
+      if mode == "jbl" || mode == "json" then
+        let (hf, rcs) := patches.foldl (fun (acc : Binn.BVal × List String) p =>
+          let res := bytePatch mode acc.1 p
+          (res.1, acc.2 ++ [res.2.name])) (h, [])
+        s!"{",".intercalate rcs} {showHolder hf}"
+      else "bad-op"
+    | _, _ => "bad-op"
   | "patch" :: mode :: rest =>
     let (dts, pts) := splitBar rest
     match JVal.ofWire dts, JVal.ofWire pts with
